@@ -159,6 +159,7 @@ func init() {
 		"(*strings.Builder).String":                    extBuilderString,
 		"(*strings.Builder).copyCheck":                 extNop,
 		"strings.Clone":                                func(fr *frame, args []value) value { return args[0] },
+		"internal/stringslite.Clone":                   func(fr *frame, args []value) value { return args[0] },
 		"strings.Index":                                extStringsIndex,
 		"strings.IndexByte":                            extStringsIndexByte,
 		"strings.Count":                                extUseBodyIfSym(func(fr *frame, args []value) value { return strings.Count(args[0].(string), args[1].(string)) }),
@@ -592,9 +593,5 @@ func extMakeNoZero(fr *frame, args []value) value {
 	if n < 0 || n > 1<<26 {
 		panic(runtimePanic{"runtime error: makeslice: len out of range"})
 	}
-	b := make([]value, n)
-	for k := range b {
-		b[k] = byte(0)
-	}
-	return b
+	return bytesWithCap(make([]value, n))[:n]
 }
